@@ -264,11 +264,11 @@ func mapProgress(file string) *[2]int64 {
 // coordinator side
 
 type totals struct {
-	mu         sync.Mutex
-	ctx        *Ctx
-	crashes    []map[string]interface{}
-	deadline   bool
-	infra      []string
+	mu       sync.Mutex
+	ctx      *Ctx
+	crashes  []map[string]interface{}
+	deadline bool
+	infra    []string
 	// per signature: the few simplest violations seen (more than one, so that if the simplest
 	// does not reproduce from its replay file the next one is tried)
 	bestPerSig map[string][]Violation
@@ -667,19 +667,19 @@ func finish(ck *Check, tier string, seed, nUnits, nWorkers int, startT time.Time
 
 	exhaustive := !tot.deadline && len(tot.infra) == 0
 	cov := map[string]interface{}{
-		"evaluations":                   tot.ctx.Evals,
-		"distinct_nontrivial":           tot.ctx.Nontrivial,
-		"rule":                          ck.Rule,
-		"samples":                       tot.ctx.Samples,
-		"exhaustive":                    exhaustive,
-		"units":                         nUnits,
-		"workers":                       nWorkers,
-		"distinct_outcomes":             len(tot.ctx.Outcomes),
-		"outcome_histogram":             tot.ctx.Outcomes,
-		"bound":                         ck.Bounds[tier],
-		"violation_signatures":          len(vs),
-		"known_findings_matched":        known,
-		"unconfirmed_violations":        unconfirmed,
+		"evaluations":            tot.ctx.Evals,
+		"distinct_nontrivial":    tot.ctx.Nontrivial,
+		"rule":                   ck.Rule,
+		"samples":                tot.ctx.Samples,
+		"exhaustive":             exhaustive,
+		"units":                  nUnits,
+		"workers":                nWorkers,
+		"distinct_outcomes":      len(tot.ctx.Outcomes),
+		"outcome_histogram":      tot.ctx.Outcomes,
+		"bound":                  ck.Bounds[tier],
+		"violation_signatures":   len(vs),
+		"known_findings_matched": known,
+		"unconfirmed_violations": unconfirmed,
 	}
 	for k, v := range tot.ctx.Extra {
 		cov[k] = v
